@@ -40,7 +40,10 @@ def drain_pending(ctx, what):
     ctx.states += states
     for i, failing in bad:
         op = pend[i][0]
-        stages._file(ctx, {"kind": "incoherent-ir", "props": ["C17"], "op": op, "expected": "rejected, or a coherent IR",
+        props = {"C17"}
+        if op.get("fault") == "dup-uuid" and (set(failing) & {"Cache", "RefKinds"}):
+            props.add("C09")    # "in a loaded IR each UUID denotes one object"
+        stages._file(ctx, {"kind": "incoherent-ir", "props": sorted(props), "op": op, "expected": "rejected, or a coherent IR",
                            "observed": {"failing": failing, "record": pend[i][1]}, "history": [],
                            "signature": "incoherent:%s/%s" % (op.get("fault", op.get("name")), ",".join(sorted(failing)))})
     ctx.stages.append({"stage": "coherence-judge", "what": what, "irs_accepted_from_faulty_input": len(pend),
@@ -52,7 +55,7 @@ def reload_stages(ctx, deq=False, sim=True):
     extra = {}
     sh = set()
     if deq:
-        extra = {"EmitKeys": configs.proto_base(universe.SCHEMA)["EmitKeys"] | {"deq", "shadowed"}}
+        extra = {"EmitKeys": configs.proto_base(universe.SCHEMA)["EmitKeys"] | {"deq", "deqn", "shadowed"}}
         sh = {"shadow"}
     for name, fams in SWEEPS:
         sweep_stage(ctx, name, set(fams) | sh, ("reload", "reload"), **extra)
@@ -106,6 +109,9 @@ RULE = ("cases are transitions/behaviours of Gtirb.tla over the file-format univ
 
 def plan_c01(ctx):
     reload_stages(ctx)
+    if not os.environ.get("VERIF_WARM") and not os.environ.get("VERIF_CHILD"):
+        from . import p_auxlife
+        p_auxlife.values_stage(ctx)
     other_backend(ctx)
     ctx.exhaustive = False
     ctx.assumptions += ["self-contained IRs only (Reload is enabled by SelfContained /\\ Closed)",
@@ -219,7 +225,15 @@ def byte_faults(ctx):
     recs, labels = [], []
     for fname, data in files:
         out = faults.load_guarded(g, data)
-        if out[0] != "ir":
+        if len(data) >= 8 and data[:5] == b"GTIRB" and data[7] != PROTOBUF_VERSION:
+            # a sample file written for another protobuf version: the property demands ValueError (its corruptions below
+            # are judged by the Header clause like any other byte string)
+            if out[:2] != ("exc", "ValueError"):
+                ctx.violations.append({"kind": "foreign-version-accepted", "props": ["C17"], "op": {"name": fname},
+                                       "expected": "ValueError (version byte %d, this API's is %d)" % (data[7], PROTOBUF_VERSION),
+                                       "observed": out[1:] if out[0] != "ir" else "an IR", "history": [],
+                                       "signature": "foreign-version-accepted"})
+        elif out[0] != "ir":
             ctx.violations.append({"kind": "valid-file-rejected", "props": ["C17"], "op": {"name": fname},
                                    "expected": "accepted", "observed": out[1:], "history": [], "signature": "valid-rejected"})
             continue
@@ -276,7 +290,7 @@ DEQ_FAMS = {"scal", "tags", "geom", "bytes", "sym", "entry", "symx", "parent", "
 def plan_c18(ctx):
     reload_stages(ctx, deq=True, sim=False)
     # after save+load, every single-field perturbation of the live IR against the frozen twin
-    extra = {"EmitKeys": configs.proto_base(universe.SCHEMA)["EmitKeys"] | {"deq", "shadowed"}}
+    extra = {"EmitKeys": configs.proto_base(universe.SCHEMA)["EmitKeys"] | {"deq", "deqn", "shadowed"}}
     c = consts_for(DEQ_FAMS, SweepOps=DEQ_OPS, SweepMode=True, **extra)
     r = run_tlc_config("Proto_deq", emit=True, consts=c, action_constraints=["SweepAfterReload"])
     stages.stage_graph(ctx, "Proto_deq", consts=c, result=r)
@@ -287,7 +301,7 @@ def plan_c18(ctx):
                                  **{k: {"E0", "E1"} for k in ("isa", "file_format", "byte_order", "decode_mode")},
                                  name={"s0", "s1"}, binary_path={"s0"}, preferred_addr={"0", "MAX64"},
                                  rebase_delta={"0", "MIN64"}, xoffset={"0", "-1"}, xscale={"1", "-1"}),
-                    Tags={0, 1}, **extra)
+                    Tags={0, 1}, EmitKeys=extra["EmitKeys"] - {"deqn"})   # (node-level deep_eq: in the one-step sweep only)
     if not os.environ.get("VERIF_CHILD"):
         r3 = run_tlc_config("Proto_deq2", emit=True, consts=c3, action_constraints=["SweepAfterReload2"])
         stages.stage_graph(ctx, "Proto_deq2", consts=c3, result=r3)
